@@ -260,3 +260,172 @@ Theorem c08_bad_ack_example :
   RunDefs.run exb_st1 (plain [pconn 115; OpConsume; OpConsume]) = Ok exb_st2 /\
   fwd_payloads (out_of exb_st2 2) = [[1]; [2]; [3]].
 Proof. exact bad_ack_witness. Qed.
+
+(** ---- C08 at the level of WHOLE RUNS, across connection epochs (Router/TraceResume*.v, on the
+    delivery trace of Router/TraceRun.v).  [run_d st0 ops = Ok (st, tr)]: the model's [run] with
+    its delivery trace.  An epoch is a link number.  [KEnd cl r w] under key (L1, f, i): the
+    connection of client [cl] on link L1 with clean_session = false was removed (Disconnect event,
+    DISCONNECT packet, router-initiated close, take-over) and its non-shared request for
+    (filter f, log i) saved with cursor offset [r], the RESUME POINT; [w] = the offsets of the
+    entries of log i in its window at that moment.  [KRes cl c0] under (L2, f, i): a Connect of
+    [cl] restored that request on the fresh link L2 with cursor offset [c0].  [KEnd] is not part of
+    [ktrace]. *)
+From Rumqtt Require Import Router.Wake Router.WakeCor Router.ExactInv Router.Inv.
+From Rumqtt Require Import Router.TraceRun Router.TraceRunThm Router.TraceRunExamples
+                           Router.TraceResume Router.TraceResumeWin Router.TraceResumeEnd Router.TraceResumeThm Router.TraceResumeExamples.
+From Rumqtt Require Import Router.Model Router.RunDefs.
+
+(** (a) the resume point.  Every resume marker is preceded by the end marker of the SAME client
+    for the same (f, i) under an older link, carrying the same offset, with no other end/resume
+    marker of that client and (f, i) in between ([quiet]); that offset is the oldest entry of log i
+    in the window at the removal if there is one, else the place where the old key's trace continues
+    ([nxt] of its last event); the new key's trace starts with the marker, and its next event starts
+    there (a forward AT c0, a jump FROM c0, or a re-SUBSCRIBE at or after c0). *)
+Theorem c08_run_resume_point : forall (cfg : config) (st0 : rstate) (ops : list (list oracle * rop)) (st : rstate) (tr : list dev),
+  cfg_ok cfg -> cf_max_outgoing cfg < B62 -> init cfg = Ok st0 -> ops_wf ops ->
+  run_d st0 ops = Ok (st, tr) -> Bounded st ->
+  forall (tr1 : list dev) (id2 L2 : N) (f : str) (i : N) (cl : str) (c0 : N) (tr2 : list dev),
+    tr = tr1 ++ (id2, (L2, f, i), KRes cl c0) :: tr2 ->
+  exists (id1 L1 : N) (w : list N) (ta tb : list dev) (a : kev) (l2 : list kev),
+    tr1 = ta ++ (id1, (L1, f, i), KEnd cl c0 w) :: tb /\ quiet cl f i tb /\ L1 < L2 /\
+    last_opt (ktrace (L1, f, i) ta) = Some a /\ c0 = match w with x :: _ => x | [] => nxt a end /\
+    ktrace (L2, f, i) tr = KRes cl c0 :: l2 /\
+    match l2 with
+    | KFwd off _ :: _ => off = c0
+    | KJump from _ :: _ => from = c0
+    | KSub e :: _ => c0 <= e
+    | _ :: _ => False
+    | [] => True
+    end.
+Proof. exact c08_run_resume_point_thm. Qed.
+
+(** (b) + first half of (c).  EXTRA HYPOTHESIS [always_b (noshare_b L1 i) st0 ops = true]: in every
+    state the run passes through, the connection of link L1 tracks no SHARED request reading log i
+    (the window and the retransmission map are keyed by the log alone, so forwards of a
+    "$share/g/f" subscription of the same client would enter the same window).  Then the offsets
+    forwarded with QoS > 0 under (L1, f, i) before the end marker ([qfo]; the QoS of a forward is
+    the QoS of the subscription) are [l1 ++ w]: those still in the window are >= the resume point,
+    those that left it (acknowledged in order) are < the resume point. *)
+Theorem c08_run_unacked_again_partial : forall (cfg : config) (st0 : rstate) (ops : list (list oracle * rop)) (st : rstate) (tr : list dev),
+  cfg_ok cfg -> cf_max_outgoing cfg < B62 -> init cfg = Ok st0 -> ops_wf ops ->
+  run_d st0 ops = Ok (st, tr) -> Bounded st ->
+  forall L1 i : N, always_b (noshare_b L1 i) st0 ops = true ->
+  forall (ta : list dev) (id1 : N) (f cl : str) (r : N) (w : list N) (tb : list dev),
+    tr = ta ++ (id1, (L1, f, i), KEnd cl r w) :: tb ->
+  exists l1 : list N,
+    qfo (ktrace (L1, f, i) ta) = l1 ++ w /\
+    (forall x : N, In x w -> r <= x) /\
+    (forall x : N, In x l1 -> x < r).
+Proof. exact c08_run_unacked_again_thm. Qed.
+
+(** (c) across the two epochs, same extra hypothesis: an offset acknowledged in the old epoch is
+    below the resume point and is not forwarded in the new epoch — UNLESS the new key's first event
+    after the marker is a jump from c0 to a smaller offset (restored cursor stale with the log's
+    base below it: not excluded by these theorems). *)
+Theorem c08_run_acked_not_again_partial : forall (cfg : config) (st0 : rstate) (ops : list (list oracle * rop)) (st : rstate) (tr : list dev),
+  cfg_ok cfg -> cf_max_outgoing cfg < B62 -> init cfg = Ok st0 -> ops_wf ops ->
+  run_d st0 ops = Ok (st, tr) -> Bounded st ->
+  forall L1 i : N, always_b (noshare_b L1 i) st0 ops = true ->
+  forall (ta : list dev) (id1 : N) (f cl : str) (c0 : N) (w : list N) (tb : list dev) (id2 L2 : N) (tr2 : list dev),
+    tr = ta ++ (id1, (L1, f, i), KEnd cl c0 w) :: tb ++ (id2, (L2, f, i), KRes cl c0) :: tr2 ->
+  exists (l1 : list N) (l2 : list kev),
+    qfo (ktrace (L1, f, i) ta) = l1 ++ w /\ ktrace (L2, f, i) tr = KRes cl c0 :: l2 /\
+    forall x : N, In x l1 -> x < c0 /\
+      (In x (fwd_offs l2) -> exists (to : N) (l' : list kev), l2 = KJump c0 to :: l' /\ to <= x).
+Proof. exact c08_run_acked_not_again_thm. Qed.
+
+(** QoS 0 and empty windows, no extra hypothesis: if the window holds nothing of log i at the
+    removal (always so for a QoS 0 subscription), EVERY offset forwarded under the old key lies
+    below the resume point ... *)
+Theorem c08_run_no_window_nothing_again : forall (cfg : config) (st0 : rstate) (ops : list (list oracle * rop)) (st : rstate) (tr : list dev),
+  cfg_ok cfg -> cf_max_outgoing cfg < B62 -> init cfg = Ok st0 -> ops_wf ops ->
+  run_d st0 ops = Ok (st, tr) -> Bounded st ->
+  forall (ta : list dev) (id1 L1 : N) (f : str) (i : N) (cl : str) (r : N) (tb : list dev),
+    tr = ta ++ (id1, (L1, f, i), KEnd cl r []) :: tb ->
+  forall x : N, In x (fwd_offs (ktrace (L1, f, i) ta)) -> x < r.
+Proof. exact c08_run_no_window_thm. Qed.
+
+(** ... and whatever a resumed key forwards lies at or after its resume point (same proviso on a
+    backward first jump): a forward of the old epoch, of any QoS, is sent again only if its offset
+    is >= the resume point — for a QoS 0 forward exactly when an older QoS>0 forward of the same
+    key was still unacknowledged. *)
+Theorem c08_run_resumed_from_resume_point : forall (cfg : config) (st0 : rstate) (ops : list (list oracle * rop)) (st : rstate) (tr : list dev),
+  cfg_ok cfg -> cf_max_outgoing cfg < B62 -> init cfg = Ok st0 -> ops_wf ops ->
+  run_d st0 ops = Ok (st, tr) -> Bounded st ->
+  forall (K : dkey) (cl : str) (c0 : N) (l2 : list kev), ktrace K tr = KRes cl c0 :: l2 ->
+  forall y : N, In y (fwd_offs l2) ->
+    c0 <= y \/ exists (to : N) (l' : list kev), l2 = KJump c0 to :: l' /\ to <= y /\ y < c0.
+Proof. exact c08_run_resumed_from_thm. Qed.
+
+(** (d) away-complete: the run ends quiescent with the resumed connection alive: its subscription
+    [f] has its one request parked; if that is not shared and the key's trace starts with a resume
+    marker, EVERY offset from the resume point to the end of the log — the unacknowledged ones and
+    everything accepted while the client was away — is accounted for after the marker: forwarded
+    (exactly once: [c01_run_no_dup_in_order]), jumped over (evicted) or below a later re-SUBSCRIBE. *)
+Theorem c08_run_away_complete : forall (cfg : config) (st0 : rstate) (ops : list (list oracle * rop)) (st : rstate) (tr : list dev),
+  cfg_ok cfg -> cf_max_outgoing cfg < B62 -> init cfg = Ok st0 -> ops_wf ops ->
+  run_d st0 ops = Ok (st, tr) -> Bounded st ->
+  1 <= cf_max_outgoing cfg -> quiescent st (owed_run st0 [] ops) ->
+  forall (id : N) (c : connection) (o : outgoing),
+    slab_get (r_conns st) id = Some c -> slab_get (r_obufs st) id = Some o ->
+  forall f : str, set_mem str_eqb f (c_subs c) = true ->
+  exists (i : N) (d : data) (rq : drequest),
+    nget (r_datalog st) i = Some d /\ In (id, rq) (d_waiters d) /\ dr_filter rq = f /\ dr_idx rq = i /\
+    (dr_group rq = None ->
+     forall (cl : str) (c0 : N) (l2 : list kev), ktrace (o_link o, f, i) tr = KRes cl c0 :: l2 ->
+     forall x : N, c0 <= x < end_of (d_log d) -> covered x l2).
+Proof. exact c08_run_away_complete_thm. Qed.
+
+(** (e), the new end: the epoch created by a Connect with clean_session = true (its link is the
+    number of links when the Connect starts) has no resume marker anywhere in the run, and every
+    key of it starts with a subscribe marker. *)
+Theorem c08_run_clean_starts_empty_partial : forall (cfg : config) (st0 : rstate) (ops1 : list (list oracle * rop))
+    (orc : list oracle) (c : conn_req) (ops2 : list (list oracle * rop)) (st : rstate) (tr : list dev),
+  cfg_ok cfg -> cf_max_outgoing cfg < B62 -> init cfg = Ok st0 -> ops_wf (ops1 ++ (orc, OpConnect c) :: ops2) ->
+  run_d st0 (ops1 ++ (orc, OpConnect c) :: ops2) = Ok (st, tr) -> Bounded st ->
+  cr_clean c = true ->
+  forall (s1 : rstate) (tr1 : list dev), run_d st0 ops1 = Ok (s1, tr1) ->
+  (forall (id : N) (f : str) (i : N) (cl : str) (c0 : N), ~ In (id, (lenN (r_links s1), f, i), KRes cl c0) tr) /\
+  (forall (f : str) (i : N) (a : kev) (l : list kev), ktrace (lenN (r_links s1), f, i) tr = a :: l -> exists e : N, a = KSub e).
+Proof. exact c08_run_clean_starts_empty_thm. Qed.
+
+(** (e), the old end, at the level of one removal: a connection with clean_session = true leaves
+    no end marker — and by (a) a resume marker needs one *)
+Theorem c08_clean_disconnect_no_end_marker : forall (st : rstate) (id : N) (st' : rstate) (c : connection),
+  slab_get (r_conns st) id = Some c -> c_clean c = true -> disc_ghost st id st' = [].
+Proof. exact disc_ghost_clean. Qed.
+
+(** the run of the task statement: three forwards, the first acknowledged, disconnect (resume point
+    1, window [1; 2]), two more publishes, reconnect: the new key's trace is Res@1, Fwd 1, 2, 3, 4;
+    all hypotheses of the theorems above hold *)
+Theorem c08_run_example_resume :
+  let st := tx_st rx_ops in let tr := tx_tr rx_ops in
+  tx_run rx_ops = Ok (st, tr) /\
+  exists st0,
+    run_hyps tx_cfg st0 rx_ops st tr /\ 1 <= cf_max_outgoing tx_cfg /\ quiescent st (owed_run st0 [] rx_ops) /\
+    always_b (noshare_b 0 0) st0 rx_ops = true /\
+    map evshort tr = [(0, 0, (2, 0, 0)); (0, 0, (0, 0, 0)); (0, 0, (0, 1, 0)); (0, 0, (0, 2, 0));
+                      (0, 0, (4, 1, 2));
+                      (0, 2, (3, 1, 0)); (0, 2, (0, 1, 0)); (0, 2, (0, 2, 0)); (0, 2, (0, 3, 0)); (0, 2, (0, 4, 0))] /\
+    ends_of tr = [(0, 1, [1; 2])] /\
+    map kshort (ktrace (0, [116], 0) tr) = (2, 0, 0) :: fwds 0 3 /\
+    map kshort (ktrace (2, [116], 0) tr) = (3, 1, 0) :: fwds 1 4 /\
+    qfo (ktrace (0, [116], 0) tr) = [0] ++ [1; 2] /\
+    exists c o d,
+      slab_get (r_conns st) 0 = Some c /\ c_subs c = [[116]] /\ slab_get (r_obufs st) 0 = Some o /\ o_link o = 2 /\
+      o_inflight o = [] /\ nget (r_datalog st) 0 = Some d /\ end_of (d_log d) = 5 /\
+      map (fun w : N * drequest => (fst w, dr_cursor (snd w), dr_group (snd w))) (d_waiters d) = [(0, (0, 5), None)].
+Proof. exact resume_run_example. Qed.
+
+(** the same with the client coming back with clean_session = true: no resume marker, the new key
+    starts with Sub@5 *)
+Theorem c08_run_example_clean :
+  let st := tx_st cx_ops in let tr := tx_tr cx_ops in
+  tx_run cx_ops = Ok (st, tr) /\
+  (exists st0, run_hyps tx_cfg st0 cx_ops st tr) /\
+  map evshort tr = [(0, 0, (2, 0, 0)); (0, 0, (0, 0, 0)); (0, 0, (0, 1, 0)); (0, 0, (0, 2, 0));
+                    (0, 0, (4, 1, 2));
+                    (0, 2, (2, 5, 0)); (0, 2, (0, 5, 0))] /\
+  nth_error cx_ops (length rx_away) = Some ([], wx_conn 114) /\
+  lenN (r_links (tx_st (wx_plain rx_away))) = 2.
+Proof. exact clean_run_example. Qed.
